@@ -1,9 +1,9 @@
 """C16 BGP message decoding is total and bounded (spec WireRx: grammar + mutation classes)."""
 import vf
 
-ALLM = {"keepalive", "notif", "open", "openNoCaps", "updV4", "updV4as2", "updV4ap", "updAllAttr", "updLong", "updV6", "updV6ap", "updV6wd",
-        "updMP4", "eor"}
-LAWS = ["WellFramed", "IsBytes", "EmitCase"]
+ALLM = {"keepalive", "notif", "open", "openNoCaps", "updV4", "updV4as2", "updV4ap", "updAllAttr", "updLong", "updV6", "updV6ll", "updV6ap",
+        "updV6wd", "updMP4", "updMP4wd", "updV6lu", "updV6luwd", "updV4lu", "eor"}
+LAWS = ["WellFramed", "OuterFramed", "IsBytes", "EmitCase"]
 
 
 def run(ctx):
@@ -14,6 +14,12 @@ def run(ctx):
     r = ctx.tlc("WireRx", vf.cfg_text(constants={"Msgs": ALLM - ({"updLong"} if not big else set()), "Muts": {"none", "trunc", "grow"},
                                                  "ByteVals": set(), "OptSets": allopts if big else {0, 5, 7, 15}}, invariants=LAWS),
                 workers=1, label="truncations", timeout=3000)
+    behs += r.behaviours
+    # structural truncations: one field (attribute value, NLRI / withdrawn section, capability value, message tail) is shorter than its
+    # content expects while every enclosing length is right, so the decoder gets past the framing checks
+    r = ctx.tlc("WireRx", vf.cfg_text(constants={"Msgs": ALLM, "Muts": {"cutfix", "attrtrunc", "nlritrunc", "captrunc"}, "ByteVals": set(),
+                                                 "OptSets": allopts if big else {0, 5, 7, 15}}, invariants=LAWS),
+                workers=1, label="structural truncations", timeout=3000)
     behs += r.behaviours
     # every single byte replaced (length fields, counts, prefix lengths, flags, types are all among them)
     vals = {0, 1, 2, 3, 127, 128, 254, 255} if big else {0, 1, 128, 255}
@@ -27,9 +33,11 @@ def run(ctx):
                     workers=1, label="single bytes (long attribute)", timeout=3000)
         behs += r.behaviours
     ctx.exhaustive = big
-    ctx.rule = ("grammar of 14 valid messages (KEEPALIVE, NOTIFICATION, OPEN with 8 capabilities / none, UPDATEs: IPv4 announce+withdraw, "
-                "2-octet AS, add-path, all attribute kinds, >255-byte attribute, MP_REACH IPv6 with/without add-path, MP_UNREACH, "
-                "MP_REACH IPv4, end-of-RIB) x mutations (none; truncation at EVERY byte offset; header length grown by 1..4000 with zero "
+    ctx.rule = ("grammar of 19 valid messages (KEEPALIVE, NOTIFICATION, OPEN with 8 capabilities / none, UPDATEs: IPv4 announce+withdraw, "
+                "2-octet AS, add-path, all attribute kinds, >255-byte attribute, MP_REACH IPv6 with/without add-path and with a 32-byte next hop, MP_UNREACH, "
+                "MP_REACH / MP_UNREACH IPv4, labeled unicast (SAFI 4) for both families, end-of-RIB) x mutations (none; truncation at EVERY byte offset; structural truncation: every attribute value / NLRI section / withdrawn "
+                "section / capability value cut at EVERY length with all enclosing length fields right, message tail cut with the "
+                "header length right; header length grown by 1..4000 with zero "
                 "fill; every single byte replaced by boundary values, which covers every length field, count, prefix length, flag and "
                 "type) x decode option combinations (quick: 4 / 3 of 16 and a seeded sample of the byte mutations; thorough: all 16, all "
                 "byte mutations); each case is decoded by packet.Decode: no panic, a message or an error, < 200 ms, < 4 MiB allocated; "
